@@ -17,12 +17,18 @@ the executable; `-Q<n> -Ginterp prog.as` is the third route.  What the compiler 
 (warnings, on stdout) precedes the program's output on the interp-from-source route only; it is removed when it
 is exactly the text the separate compilation printed.
 
-A difference is shrunk by deleting lines while the same difference persists, then reported with
-ctx.finding.  Signature `routes|<program>|Q<level>|<which routes differ>`, except for two recognisable causes
-that any program can run into: the interpreter's own `Compiler bug...Bug: <text>` abort
-(`routes|interp-bug:<text>|<which>`) and the call stack the interpreter prints on stdout at a halt
-(`routes|exit|halt|stdout:interp-backtrace`, the signature part `exitclass` uses for the same defect)."""
-import os, re, shutil, time, concurrent.futures as cf
+A difference is shrunk by deleting balanced blocks and lines while the same difference persists, then reported
+with ctx.finding.  Signatures name the CAUSE where it is positively identified:
+  `routes|interp-bug:<text>|<which>`           the interpreter's own `Compiler bug...Bug: <text>` abort
+  `routes|exit|halt|stdout:interp-backtrace`   the call stack the interpreter prints on stdout at a halt (the
+                                               signature part `exitclass` uses for the same defect)
+  `routes|c-signed-overflow-ub|<which>`        only the executable stands apart AND compiling the same generated
+                                               C with `-fwrapv` added makes it agree with the interpreter: gcc has
+                                               exploited signed overflow in the C of a wrapping FOAM integer builtin
+otherwise `routes|<program>|Q<level>|<which routes differ>` for the pinned and corpus files (stable names) and
+`routes|generated|<which>|<what>|<classes>|<sha8 of the minimised source>` for generated programs (their index
+is not stable across seeds, so it never appears in a signature)."""
+import hashlib, os, re, shutil, time, concurrent.futures as cf
 from vlib import common, aldor
 from vlib.common import VERIF
 
@@ -58,6 +64,11 @@ def run_ao_c(build, text, q, timeout):
     try:
         exe = os.path.join(r["dir"], "prog")
         ao = r["outputs"].get("prog.ao")
+        if r["rc"] == "TIMEOUT":
+            # the compilation itself ran out of time (the -Q9 optimiser on a large program): same class on every
+            # route that has to compile, not a refusal to compile
+            t = _res("TIMEOUT", "", "", "TIMEOUT", r["stdout"] + r["stderr"])
+            return dict(t), dict(t), r["stdout"]
         if r["rc"] != 0 or ao is None or not os.path.exists(exe):
             # fall back to the separate compilations so that each route is judged on its own
             return (aldor.run_source(build, text, route="ao-interp", opts=["-Q%d" % q], timeout=timeout),
@@ -68,6 +79,33 @@ def run_ao_c(build, text, q, timeout):
         shutil.rmtree(r["top"], ignore_errors=True)
     r2 = aldor.compile(build, {"prog.ao": ao}, ["-Ginterp", "prog.ao"], timeout=timeout)
     return _res(r2["rc"], r2["stdout"], r2["stderr"], 0, r["stdout"] + r["stderr"]), c, r["stdout"]
+
+
+def run_c_with(build, text, q, timeout, ccflag):
+    """the C route once more, with one more option handed to the C compiler through unicl (-Wopts=...)"""
+    co = [(c + " -Wopts=" + ccflag) if c.startswith("-Cargs=") else c for c in aldor.c_opts(build)]
+    r = aldor.compile(build, {"prog.as": text}, ["-Q%d" % q, "-Fx"] + co + ["prog.as"], timeout=timeout, keep=True)
+    try:
+        exe = os.path.join(r["dir"], "prog")
+        if r["rc"] != 0 or not os.path.exists(exe):
+            return _res(None, "", "", r["rc"], r["stdout"] + r["stderr"])
+        rc, out, err = common.run([exe], cwd=r["dir"], timeout=timeout)
+        return _res(rc, out, err, 0, r["stdout"] + r["stderr"])
+    finally:
+        shutil.rmtree(r["top"], ignore_errors=True)
+
+
+def probe_cause(build, text, q, res, d, timeout):
+    """positively identify a cause by an experiment; returns a cause name or None"""
+    if d["which"] == "interp+ao-interp!=c" and not d["bug"] and not d["only_backtrace"] and klass(res["c"]) != "nocompile":
+        try:
+            w = run_c_with(build, text, q, timeout, "-fwrapv")
+        except Exception:       # noqa
+            return None
+        if klass(w) == klass(res["interp"]) and w["stdout"] == res["interp"]["out"] and \
+                (w["stdout"] != res["c"]["out"] or klass(w) != klass(res["c"])):
+            return "c-signed-overflow-ub"
+    return None
 
 
 def run_interp(build, text, q, timeout):
@@ -109,6 +147,19 @@ def interp_compile_failed(r):
         "Program fault" not in r["stdout"] and "Compiler bug" not in r["stdout"]
 
 
+def compiler_crashed_everywhere(res):
+    """the compiler itself faulted or hit a `Compiler bug` while COMPILING (before any program output): with
+    -Ginterp prog.as that is exit 1 with the message on stdout, with -Fao/-Fx a failed compilation printing the very
+    same message — the same outcome on every route (a compiler defect, but not a difference between routes)"""
+    it, ao, c = res["interp"], res["ao-interp"], res["c"]
+    if klass(ao) != "nocompile" or klass(c) != "nocompile" or klass(it) != "fail":
+        return False
+    msg = RM.sub("", it["stdout"]).strip()
+    if not msg or not ("Program fault" in msg or "Compiler bug" in msg):
+        return False
+    return all(RM.sub("", (r.get("compile_out") or "")).strip() == msg for r in (ao, c))
+
+
 def difference(res):
     """None when the three routes agree, else a descriptor (dict) of the difference"""
     it, ao, c = res["interp"], res["ao-interp"], res["c"]
@@ -116,6 +167,8 @@ def difference(res):
     if interp_compile_failed(it) and ks["ao-interp"] == "nocompile" and ks["c"] == "nocompile":
         return None                                   # rejected by the compiler on every route
     if ks["interp"] == ks["ao-interp"] == ks["c"] and ks["c"] in ("nocompile", "timeout"):
+        return None
+    if compiler_crashed_everywhere(res):
         return None
     if len(set(ks.values())) == 1 and it["out"] == ao["out"] == c["out"]:
         return None
@@ -148,22 +201,29 @@ def same_difference(d1, d2):
         and d1["only_backtrace"] == d2["only_backtrace"] and d1["classes"] == d2["classes"]
 
 
-def signature(name, q, d):
+def signature(name, q, d, origin="corpus", cause=None, small=None):
     if d["only_backtrace"]:
         return "routes|exit|halt|stdout:interp-backtrace"
     if d["bug"]:
         return "routes|interp-bug:%s|%s" % (d["bug"], d["which"])
+    if cause:
+        return "routes|%s|%s" % (cause, d["which"])
+    if origin == "generated":
+        h = hashlib.sha256((small or "").encode("utf-8", "replace")).hexdigest()[:8]
+        return "routes|generated|%s|%s|%s|%s" % (d["which"], d["what"], "/".join(d["classes"][k] for k in ROUTES), h)
     return "routes|%s|Q%d|%s" % (name, q, d["which"])
 
 
 # ------------------------------------------------------------------------------ shrinking
-def shrink(build, text, q, d, timeout, budget):
-    """delete lines (chunks halving down to single lines) while the same difference persists"""
+def shrink(build, text, q, d, timeout, budget, seconds):
+    """delete balanced blocks (longest first; a single line is a block too) while the same difference persists;
+    bounded by a number of runs and by wall time (a -Q9 compilation of a large program can take a minute)"""
     lines = text.split("\n")
     used = 0
+    t_end = time.time() + seconds
     def keep(ls):
         nonlocal used
-        if used >= budget: return False
+        if used >= budget or time.time() > t_end: return False
         used += 1
         try:
             res = run_unit(build, "\n".join(ls), q, timeout)
@@ -174,22 +234,29 @@ def shrink(build, text, q, d, timeout, budget):
         if interp_compile_failed(res["interp"]) and d["classes"]["interp"] != "fail":
             return False
         return same_difference(d, difference(res))
-    chunk = max(1, len(lines) // 2)
-    while used < budget:
-        i = 0; changed = False
-        while i < len(lines) and used < budget:
-            seg = lines[i:i + chunk]
-            if any(l.startswith("#include") or l.startswith("#pile") for l in seg):
-                i += chunk; continue
-            cand = lines[:i] + lines[i + chunk:]
+    def delta(l):
+        return l.count("{") - l.count("}")
+    def blocks(ls):
+        """balanced line ranges (a definition or compound statement with everything inside), longest first"""
+        out = []
+        for i in range(len(ls)):
+            if ls[i].startswith("#include") or ls[i].startswith("#pile"): continue
+            dd = 0
+            for j in range(i, len(ls)):
+                dd += delta(ls[j])
+                if dd < 0: break
+                if dd == 0:
+                    out.append((i, j)); break
+        return sorted(out, key=lambda r: -(r[1] - r[0]))
+    changed = True
+    while changed and used < budget and time.time() < t_end:
+        changed = False
+        for i, j in blocks(lines):
+            if used >= budget or time.time() > t_end: break
+            cand = lines[:i] + lines[j + 1:]
             if keep(cand):
                 lines = cand; changed = True
-            else:
-                i += chunk
-        if chunk == 1:
-            if not changed: break
-        else:
-            chunk = max(1, chunk // 2)
+                break
     return "\n".join(lines), used
 
 
@@ -276,7 +343,7 @@ def run_part(ctx, build):
     stats = {"pinned": len(pinned), "corpus": len(corpus), "generated": len(gen), "units": len(units), "run": 0,
              "skipped_budget": 0, "agree": 0, "differ": 0, "nocompile_all": 0, "timeout_all": 0,
              "levels": {}, "classes": {}, "model_compared": 0, "model_differs": 0, "shrink_runs": 0,
-             "compile_msgs_stripped": 0}
+             "compile_msgs_stripped": 0, "causes": {}, "compiler_crash_all": 0}
     if gen_note:
         ctx.notes.append(gen_note)
     t0 = time.time()
@@ -313,6 +380,10 @@ def run_part(ctx, build):
         if d is None:
             stats["agree"] += 1
             if ks.startswith("nocompile") or interp_compile_failed(res["interp"]): stats["nocompile_all"] += 1
+            if compiler_crashed_everywhere(res):
+                stats["compiler_crash_all"] += 1
+                ctx.notes.append("compiler crashed while compiling %s at -Q%d on every route: %s" % (
+                    name if origin != "generated" else "a generated program", q, res["interp"]["stdout"][:80].strip()))
             if ks.startswith("timeout"): stats["timeout_all"] += 1
             if m is not None and m.get("ok") and klass(res["c"]) in ("ok", "fail"):
                 stats["model_compared"] += 1
@@ -330,21 +401,37 @@ def run_part(ctx, build):
                             "stdout_lines": res["c"]["out"].count("\n")}, limit=14)
             continue
         stats["differ"] += 1
-        sig = signature(name, q, d)
+        cause = None
+        sig = signature(name, q, d, origin)
+        if not (d["only_backtrace"] or d["bug"]):
+            cause = probe_cause(build, text, q, res, d, timeout)
+            if cause:
+                stats["causes"][cause] = stats["causes"].get(cause, 0) + 1
+                sig = signature(name, q, d, origin, cause)
+        if sig in reported:
+            continue
+        small, used = text, 0
+        if not ctx._listed(sig):
+            small, used = shrink(build, text, q, d, timeout, 600 if thorough else 150, 1500 if thorough else 150)
+            stats["shrink_runs"] += used
+            if origin == "generated" and not (cause or d["bug"] or d["only_backtrace"]):
+                sig = signature(name, q, d, origin, None, small)
         if sig in reported:
             continue
         reported.add(sig)
-        small, used = text, 0
-        if not ctx._listed(sig):
-            small, used = shrink(build, text, q, d, timeout, 200 if thorough else 40)
-            stats["shrink_runs"] += used
         outs = {k: {"rc": res[k]["rc"], "stdout": res[k]["stdout"][:4000], "stderr": res[k]["stderr"][:2000],
                     "class": klass(res[k])} for k in ROUTES}
+        la, lc = res["interp"]["out"].split("\n"), res["c"]["out"].split("\n")
+        fd = next((n for n in range(max(len(la), len(lc))) if (la[n] if n < len(la) else None) != (lc[n] if n < len(lc) else None)), None)
+        fdtxt = "" if fd is None else "; first differing line %d: interp %r, c %r" % (
+            fd + 1, la[fd][:80] if fd < len(la) else None, lc[fd][:80] if fd < len(lc) else None)
         what = ("%s at -Q%d: %s differ in %s (classes interp/ao-interp/c = %s)%s; interp stdout %r, c stdout %r"
                 % (name, q, d["which"], d["what"], ks, (" — interpreter aborts with `%s`" % d["bug"]) if d["bug"] else "",
-                   res["interp"]["out"][:160], res["c"]["out"][:160]))
+                   res["interp"]["out"][:160], res["c"]["out"][:160])) + fdtxt
+        if cause == "c-signed-overflow-ub":
+            what += " — the executable agrees with the interpreter once its C is compiled with -fwrapv (signed overflow exploited by the C compiler)"
         ctx.finding(sig, what, {"kind": "routes-disagree", "program": name, "origin": origin, "level": q,
-                                "difference": d, "source": small, "original_source": text if small != text else None,
+                                "difference": d, "cause": cause, "source": small, "original_source": text if small != text else None,
                                 "commands": commands(build, q), "outputs": outs, "shrink_runs": used})
     stats["wall_s"] = round(time.time() - t0, 1)
     stats["distinct_results"] = len(seen)
